@@ -125,7 +125,7 @@ func NewWorld(kind Kind, n int, max int) *World {
 	return w
 }
 
-func (w *World) newInstance(alias string, create bool) (orda.Client, iface.Datatype) {
+func (w *World) NewInstance(alias string, create bool) (orda.Client, iface.Datatype) {
 	c := orda.NewClient(orda.NewLocalClientConfig("col"), alias)
 	var d orda.Datatype
 	switch w.Kind {
@@ -159,7 +159,7 @@ func (w *World) newInstance(alias string, create bool) (orda.Client, iface.Datat
 
 func (w *World) addReplica() *Replica {
 	i := len(w.Reps)
-	c, dt := w.newInstance(fmt.Sprintf("r%d", i), i == 0)
+	c, dt := w.NewInstance(fmt.Sprintf("r%d", i), i == 0)
 	r := &Replica{Idx: i, Client: c, DT: dt, CUID: dt.GetCUID()}
 	w.Reps = append(w.Reps, r)
 	r.noteEmitted()
@@ -288,7 +288,7 @@ func (w *World) Quiesce() (err error) {
 // ServerCopy builds a fresh instance and feeds it the whole log at once, the way
 // snapshot.Manager.GetLatestDatatype does on the server.
 func (w *World) ServerCopy() (dt iface.Datatype, err error) {
-	_, dt = w.newInstance("server", true)
+	_, dt = w.NewInstance("server", true)
 	var ops []*model.Operation
 	for _, op := range w.Log {
 		ops = append(ops, proto.Clone(op).(*model.Operation))
